@@ -16,6 +16,16 @@ func init() {
 		c.Add(&Job{Label: "HasValidTLD/concrete dates,entries=1,labels=2", Pkg: utilPkg, Func: "VerifC18HasValidTLD", MustCover: []string{"label in table", "inside the period", "outside the period", "label not in table"}, Tune: pool})
 		c.Add(&Job{Pkg: utilPkg, Func: "VerifC18TableFacts", MustCover: []string{"table"}})
 		c.Add(&Job{Pkg: utilPkg, Func: "VerifC18Boundaries", MustCover: []string{"boundaries"}, NoReplay: true})
+		// the lint reports accordingly (symbolic: util.HasValidTLD uninterpreted; pool: real table, concrete names)
+		c.Assume("lint-level job: util.HasValidTLD and net.ParseIP are uninterpreted functions of their arguments in the symbolic variant (HasValidTLD's own law is the jobs above); DNS names <= 2")
+		c.Add(&Job{Label: "lint/e_dnsname_not_valid_tld", Pkg: cabfBRPkg, Func: "VerifC18TLDLint", MustCover: []string{"a name without valid TLD", "all names have a valid TLD", "does not apply"},
+			Tune: func(cf *Config) {
+				cf.UF["github.com/zmap/zlint/v3/util.HasValidTLD"] = true
+				cf.ListBound = 2
+				cf.AutoUF = true
+			}})
+		c.Add(&Job{Label: "lint/e_dnsname_not_valid_tld/pool", Pkg: cabfBRPkg, Func: "VerifC18TLDLint", MustCover: []string{"a name without valid TLD", "all names have a valid TLD"},
+			Tune: func(cf *Config) { cf.Bounds["param:pool"] = 1; cf.AutoUF = true; cf.Unwind = 4000 }})
 		maxEntries, maxLead := 2, 2
 		if !c.Quick() {
 			maxEntries, maxLead = 3, 3
